@@ -56,7 +56,39 @@ Inductive rdata :=
 
 Record rr := mkRR { rr_name : bytes; rr_ttl : N; rr_data : rdata }.
 
-Record resp := mkResp { rs_rcode : N; rs_answer : list rr; rs_soa : bool }.
+(** How the question name inside an upstream answer relates to the one that
+    was asked (round 6): the same bytes, lower-cased, upper-cased. *)
+Inductive qcase := QAsAsked | QLower | QUpper.
+
+(** A DNS message as far as the pipeline is concerned (round 6: the whole
+    message, not only code and answer section): the response code, the answer
+    section, whether the authority section holds an SOA record, the other
+    records of the authority section, the additional section (without OPT),
+    the TC flag, the question name's relation to the asked one. *)
+Record resp := mkRespX {
+  rs_rcode : N;
+  rs_answer : list rr;
+  rs_soa : bool;
+  rs_ns : list rr;
+  rs_extra : list rr;
+  rs_tc : bool;
+  rs_qcase : qcase
+}.
+
+(** A message with nothing but a code, an answer section and possibly an SOA
+    record (every message the server builds itself; most upstream answers). *)
+Definition mkResp (rc : N) (ans : list rr) (soa : bool) : resp := mkRespX rc ans soa [] [] false QAsAsked.
+
+(** The same message with another answer section (pctx.Res.Answer = ...). *)
+Definition with_answer (r : resp) (ans : list rr) : resp :=
+  mkRespX (rs_rcode r) ans (rs_soa r) (rs_ns r) (rs_extra r) (rs_tc r) (rs_qcase r).
+
+Definition upper_byte (b : N) : N := if (97 <=? b) && (b <=? 122) then b - 32 else b.
+Definition upper (s : bytes) : bytes := map upper_byte s.
+
+(** The question name inside an upstream answer to the question [asked]. *)
+Definition resp_qname (r : resp) (asked : bytes) : bytes :=
+  match rs_qcase r with QAsAsked => asked | QLower => lower asked | QUpper => upper asked end.
 
 Definition rcSuccess : N := 0.
 Definition rcServfail : N := 2.
@@ -846,7 +878,7 @@ Section Engines.
                   (RcError, mkPState (Some servfail) calls (ps_result p) false false false
                                      qn (ps_orig_q p) false qn)
               | Some r => (RcSuccess, mkPState (Some r) calls (ps_result p) false true false
-                                               (ps_qname p) (ps_orig_q p) false (ps_qname p))
+                                               (ps_qname p) (ps_orig_q p) false (resp_qname r (ps_qname p)))
               end
         end
     | StFilterAfter =>
@@ -857,8 +889,8 @@ Section Engines.
             | Some o, Some r =>
                 (* the question is put back and the CNAME prepended; the
                    upstream's records are not examined *)
-                (RcSuccess, mkPState (Some (mkResp (rs_rcode r)
-                                              (rec_cname c o (r_canon (ps_result p)) :: rs_answer r) (rs_soa r)))
+                (RcSuccess, mkPState (Some (with_answer r
+                                              (rec_cname c o (r_canon (ps_result p)) :: rs_answer r)))
                                      (ps_calls p) (ps_result p) (ps_orig_kept p) (ps_from_upstream p)
                                      (ps_logged p) o (ps_orig_q p) (ps_dhcp_host p) o)
             | _, _ => (RcSuccess, p)
@@ -876,7 +908,7 @@ Section Engines.
                                            (ps_calls p) fr true true false
                                            (ps_qname p) (ps_orig_q p) (ps_dhcp_host p) (ps_qname p))
                   | None =>
-                      (RcSuccess, mkPState (Some (mkResp (rs_rcode r) ans' (rs_soa r)))
+                      (RcSuccess, mkPState (Some (with_answer r ans'))
                                            (ps_calls p) (ps_result p) false true false
                                            (ps_qname p) (ps_orig_q p) (ps_dhcp_host p) (ps_resp_qname p))
                   end
